@@ -129,10 +129,12 @@ CLAIMED = {
              "bound 2*size+4); the text split yields <=3 tokens that partition the text into ASCII-whitespace / "
              "non-whitespace runs; void elements only as EmptyTag; the Lint model accepts the walk of every "
              "well-named forest; rebuilding from the stream returns the forest with adjacent text merged. The "
-             "ElementTree cursor (element, key, parents, flag) is modelled over the .text/.tail representation and "
-             "tied by exact-agreement correspondence (3000 trees/run, API-built and parsed, both walkers compared) "
-             "but its equivalence with walk is PARTIAL (not yet a theorem). One known finding (event-source), one fix "
-             "(lint typo).",
+             "ElementTree walker's cursor arithmetic ((element, key, parents, flag) cursors over the .text/.tail "
+             "representation) emits, for EVERY tree in that representation, exactly its recursive walk, and for every "
+             "tree in the form ElementTree can hold (no empty or adjacent text nodes) that is the walk of the tree: the "
+             "etree and DOM walkers emit the same stream (theorem, with the fuel the model's entry points supply). Both "
+             "cursor models are tied to the real walkers by exact-agreement correspondence (3000 trees/run, API-built "
+             "and parsed). One known finding (event-source), one fix (lint typo).",
         design_ref="DESIGN.md 3 C11, A.4",
         note="minidom/ElementTree modelled as lists; hand models pinned by AST hash.",
         technique="Coq proof (structural induction over trees, fuelled traversal with continuation lemma) + "
@@ -234,8 +236,9 @@ CLAIMED = {
              "token, only meta attribute VALUES change (keys and order kept); a rewritten meta and the injected token "
              "declare the encoding (charset attribute, or content-type pragma content). Model tied by exact-agreement "
              "correspondence on random streams (metas with charset/http-equiv/content/namespaced attributes in every "
-             "order, unclosed and repeated heads). PARTIAL: 'exactly one injection directly after <head>' is validated, "
-             "not proved; the byte-level clauses are decided by the end-to-end run (serialize with every codec of "
+             "order, unclosed and repeated heads). For EVERY stream with one head element, exactly one <meta charset> is injected, directly after "
+             "<head>, iff no declaration was found before </head> (theorem). PARTIAL: streams with several or unclosed "
+             "heads are covered by the first theorem and the correspondence only; the byte-level clauses are decided by the end-to-end run (serialize with every codec of "
              "webencodings.LABELS x omit_optional_tags, parse the bytes with no hints, compare documentEncoding and "
              "tree) with three recorded findings.",
         design_ref="DESIGN.md 3 C15",
